@@ -15,6 +15,7 @@ import ScpiVerif.Drv.Queue
 import ScpiVerif.Drv.Regs
 import ScpiVerif.Drv.Heap
 import ScpiVerif.Drv.Lexer
+import ScpiVerif.Drv.Match
 open ScpiVerif.Drv
 
 def dispatch (cfg : String) (inp : List String) (obs : List String) : Option Verdict :=
@@ -24,6 +25,7 @@ def dispatch (cfg : String) (inp : List String) (obs : List String) : Option Ver
   | some "R" => runRegs inp obs
   | some "H" => runHeap inp obs
   | some "L" => runLexer inp obs
+  | some "M" => runMatch inp obs
   | _ => none
 
 structure Stats where
@@ -36,22 +38,31 @@ structure Stats where
   tags : Std.HashMap String Nat := {}
   samples : List String := []
   seen : Std.HashSet UInt64 := {}
+  pending : Option String := none     -- an unreadable line, reported unless a FAULT line follows (partial line cut by a crash)
+
+def flushPending (st : Stats) : IO Stats := do
+  match st.pending with
+  | some l =>
+    IO.println s!"UNPARSED\t{l}"
+    pure { st with unparsed := st.unparsed + 1, pending := none }
+  | none => pure st
 
 partial def loop (cfg : String) (h : IO.FS.Stream) (st : Stats) : IO Stats := do
   let line ← h.getLine
-  if line.isEmpty then return st
+  if line.isEmpty then return (← flushPending st)
   let line := (line.dropEndWhile (fun c => c == '\n' || c == '\r')).toString
   if line.isEmpty then loop cfg h st else
   if line.startsWith "X FAULT" then
     IO.println s!"FAULT\t{line}"
-    loop cfg h { st with faults := st.faults + 1 }
+    loop cfg h { st with faults := st.faults + 1, pending := none }
   else
     let (c, o) := splitCase line
     match dispatch cfg (words c) (words o) with
     | none =>
-      IO.println s!"UNPARSED\t{line}"
-      loop cfg h { st with unparsed := st.unparsed + 1 }
+      let st ← flushPending st
+      loop cfg h { st with pending := some line }
     | some v =>
+      let st ← flushPending st
       let hsh := hash c
       let fresh := v.nontrivial && !st.seen.contains hsh
       let mut st := { st with cases := st.cases + 1, nontrivial := st.nontrivial + (if fresh then 1 else 0),
